@@ -137,6 +137,9 @@ func (c *Ctx) socketUses() []socketUse {
 			case *ssa.TypeAssert:
 				push(x, it.src)
 			case *ssa.Extract:
+				if _, isTA := x.Tuple.(*ssa.TypeAssert); isTA && x.Index == 1 {
+					break // the ok flag of a comma-ok assertion
+				}
 				push(x, it.src)
 			case *ssa.BinOp:
 				if (x.Op == token.EQL || x.Op == token.NEQ) && (an.IsNilConst(x.X) || an.IsNilConst(x.Y)) {
